@@ -525,6 +525,13 @@ class World(object):
         f = self.get(op["f"])
         f.add_point((self.get(op["x"]), self.get(op["g"]), self.get(op["v"])))
 
+    def _lin_acc(self, terms, zero):
+        """The user idiom `acc = null_point; for ...: acc += w * t` (shared module-level zero as accumulator)."""
+        acc = zero
+        for hname, w in terms:
+            acc += w * self.get(hname)
+        return acc
+
     def _lin(self, terms, zero):
         acc = None
         for hname, w in terms:
@@ -535,7 +542,7 @@ class World(object):
 
     def op_plin(self, op):
         from PEPit import null_point
-        p = self._lin(op["terms"], null_point)
+        p = self._lin_acc(op["terms"], null_point) if op.get("acc") else self._lin(op["terms"], null_point)
         den = {}
         for hname, w in op["terms"]:
             for k, v in self.den[hname].items():
@@ -574,10 +581,16 @@ class World(object):
         from PEPit.expression import Expression
         acc = None
         den = {}
+        if op.get("acc") and op.get("terms"):
+            from PEPit import null_expression
+            acc = null_expression
         for hname, w in op.get("terms") or []:
             t = self.get(hname)
-            t = t if w == 1 and acc is not None else w * t
-            acc = t if acc is None else acc + t
+            if op.get("acc"):
+                acc += w * t
+            else:
+                t = t if w == 1 and acc is not None else w * t
+                acc = t if acc is None else acc + t
             for k, v in self.den[hname].items():
                 den[k] = den.get(k, 0.0) + w * v
         c = op.get("const")
